@@ -95,6 +95,7 @@ UnionResult(u, j, kres, Hn, Rn, twrn) ==
        /\ obj' = (j :> new) @@ obj
   /\ UNCHANGED un
 UnionReset(u) == u \in ULive /\ un' = [un EXCEPT ![u] = UFresh(@.maxK)] /\ UNCHANGED obj
+UnionCopy(u, v) == u \in ULive /\ un' = (v :> un[u]) @@ un /\ UNCHANGED obj      \* construction or assignment, copy or move
 UnionDestroy(u) == u \in ULive /\ un' = [x \in ULive \ {u} |-> un[x]] /\ UNCHANGED obj
 
 \* ---- bounded next-state relation for model checking ----
@@ -119,6 +120,7 @@ Next ==
        \/ u \in ULive /\ \E j \in Ids, k \in Ks : \E s \in Samples(un[u].stream, un[u].tot) :
             UnionResult(u, j, k, s[1], s[2], s[3])
        \/ UnionReset(u)
+       \/ \E v \in UIds \ {u} : UnionCopy(u, v)
 Spec == Init /\ [][Next]_vars
 
 \* invariants: the property's clauses, and what they imply
